@@ -37,6 +37,17 @@ PRELUDES = {
     # POW at 7, back-to-DPOS requested at 8 (takes effect at 18)
     "mode": dict(su=30, blocks=[[it("Reg", "p1"), it("Reg", "p3")], E, E, E, E, E, [it("ToPOW")], [it("ToDPOS")],
                                 E, E, E, E, E, E, E, E]),
+    # what only time brings: the v2 producer p3 (StakeUntil 10) and the vote it holds (lock 10) both expire in block 11, the
+    # inactive p1 (penalty 5, topped up, activation requested at 8) becomes active again in block 13; free blocks 12, 13
+    "late": dict(su=10, blocks=[[it("Reg", "p1"), it("Reg", "p3")], [it("Stake", a="a1", x=3)], [it("Reg", "p2")], E, E, E,
+                                [it("Vote2", "p3", "a1", 1, 10), it("Inact", "p1"), it("TopUp", "p1", x=6)], [it("Act", "p1")],
+                                E, E, E]),
+    # a stale activation request: p1 inactive at 7, asks for activation at 9, cancels at 10 (never activated, the request
+    # height stays), illegal evidence at 16 makes it Illegal again; from 17 on an ActivateProducer finds a request height
+    # that is neither "never" nor recent, and the activation six blocks after the old request fires at once
+    "reactivate": dict(su=30, blocks=[[it("Reg", "p1"), it("Reg", "p3")], E, E, E, E, E, [it("Inact", "p1")],
+                                      [it("TopUp", "p1", x=6)], [it("Act", "p1")], [it("Can", "p1")], E, E, E, E, E,
+                                      [it("Illegal", "p1")]]),
     # the whole POW period forced: POW at 7, back-to-DPOS requested at 8, DPOS again at 18 (= DPOSWorkHeight); the free
     # blocks start with 19 = DPOSWorkHeight + 1, the block that appends two changes of DPOSStartHeight ("from pow" and
     # the regular advance).  Stakes, a v1 vote (output worth more than the vote) and a v2 vote (expires at 21) are live.
@@ -131,28 +142,66 @@ def replay(chk, behs, prelude, label, span=6, shards=4):
                           env={"GOGC": "300", "GOMAXPROCS": "2"})
 
 
-def pick(behs, limit, rng):
-    """Stratified selection: round-robin over the classes (last two steps) until `limit`."""
+def tags(b, last=2):
+    """What the closures of the last blocks of a behaviour exercise (from the change kinds the spec logs per block):
+    every change kind, and every set of >= 2 different change kinds that one block applies to one subject
+    (a producer 'P:', a stake address 'A:', the consensus-mode / irreversibility fields 'G:').  The second kind is where a
+    rollback closure that undoes its step symmetrically (x-- for x++) instead of restoring the captured value, or a
+    value captured at the wrong moment, becomes visible."""
+    t = set()
+    for s in b[-last:]:
+        if s.get("act") != "Block" or not s.get("applied"):
+            continue
+        by = {}
+        for k, sub in s.get("ck", []):
+            t.add(k)
+            by.setdefault(sub, set()).add(k)
+        for sub, ks in by.items():
+            if len(ks) >= 2:
+                t.add(("G:" if sub == "-" else "P:" if sub.startswith("p") else "A:") + "+".join(sorted(ks)))
+    return t
+
+
+def pick(behs, limit, rng, per_tag=2, tag_share=0.5):
+    """Selection of the behaviours to replay.  First every tag (see tags()) gets `per_tag` behaviours (rarest tags
+    first, at most tag_share of the limit), then round-robin over the classes (item kinds of the last two steps)
+    until `limit`."""
     if limit is None or len(behs) <= limit:
         return behs
+    keyed = [(json.dumps(b, sort_keys=True), b) for b in behs]
+    keyed.sort(key=lambda kb: kb[0])
+    order = list(range(len(keyed)))
+    rng.shuffle(order)
+    taken = set()
+    bytag = {}
+    for i in order:
+        for t in tags(keyed[i][1]):
+            bytag.setdefault(t, []).append(i)
+    have = {}
+    for t in sorted(bytag, key=lambda t: (len(bytag[t]), t)):
+        for i in bytag[t]:
+            if have.get(t, 0) >= per_tag or len(taken) >= limit * tag_share:
+                break
+            if i in taken:
+                continue
+            taken.add(i)
+            for u in tags(keyed[i][1]):
+                have[u] = have.get(u, 0) + 1
     classes = {}
-    for b in behs:
-        classes.setdefault(strat(b), []).append(b)
-    for k in classes:
-        rng.shuffle(classes[k])
+    for i in order:
+        if i not in taken:
+            classes.setdefault(strat(keyed[i][1]), []).append(i)
     keys = sorted(classes)
     rng.shuffle(keys)
-    out = []
-    while len(out) < limit:
+    while len(taken) < limit:
         progressed = False
         for k in keys:
-            if classes[k] and len(out) < limit:
-                out.append(classes[k].pop())
+            if classes[k] and len(taken) < limit:
+                taken.add(classes[k].pop())
                 progressed = True
         if not progressed:
             break
-    out.sort(key=lambda b: json.dumps(b, sort_keys=True))
-    return out
+    return [keyed[i][1] for i in sorted(taken)]
 
 
 def _explore(chk, job, rng_seed):
@@ -225,7 +274,8 @@ ASSUMPTIONS = [
     "election: next/current arbiter sets, rewards and CR members are compared by the differential oracle but never change",
     "the arbiter set seen by the inactivity counting is stubbed as 'every producer of the active map' (in the spec and in the driver)",
     "an amount-map entry holding 0 is identified with an absent entry when snapshots are compared",
-    "3 producers (p1,p2 v1; p3 v2; p1 may upgrade to v1v2), 2 stake addresses, amounts in whole ELA; blocks carry 0..2 items and two "
+    "3 producers (p1,p2 v1; p3 v2; p1 may upgrade to v1v2), 2 stake addresses, amounts in whole ELA (a registration pays the minimum "
+    "deposit + 1 ELA, so totalAmount and the locked depositAmount differ from the start); blocks carry 0..2 items and two "
     "items share a block only if they touch the same producer / address / mode; CR candidate and member deposits (the CR half of C28) "
     "are not modelled",
 ]
